@@ -40,7 +40,8 @@ Record entry := {
   e_ref : N;
   e_ik : N;
   e_reverts : option nat;
-  e_owner : tid
+  e_owner : tid;
+  e_unb : bool    (* ghost: the script grants its sources unbounded overdraft / the revert is forced *)
 }.
 
 Inductive eclass := EIkBusy | EConflict | ENotFound | EAlreadyReverted | ERevertOccurring | EInsufficient
@@ -195,8 +196,9 @@ Definition unlock (t : tid) (u : upd) : upd :=
      u_batch := u_batch u; u_iks := u_iks u; u_refs := u_refs u; u_revs := u_revs u; u_locks := locks';
      u_queue := q; u_cs := u_cs u; u_uid := u_uid u; u_threads := ths; u_published := u_published u |}.
 
-(* the end of a request: reservations it still holds are released, the response is recorded *)
-Definition finish (t : tid) (th : thread) (r : response) (publish : bool) (u : upd) : upd :=
+(* the end of a request: the response is recorded and the reservations named by the flags are released
+   (a request must only release what it took itself) *)
+Definition finish (t : tid) (th : thread) (r : response) (publish rel_ik rel_ref rel_rev : bool) (u : upd) : upd :=
   let rq := t_req th in
   let ev := {| ev_tid := t; ev_kind := rq_kind rq;
                ev_txid := match r with ROk x => x | _ => None end;
@@ -207,23 +209,21 @@ Definition finish (t : tid) (th : thread) (r : response) (publish : bool) (u : u
                 t_gen := t_gen th |} in
   {| u_persisted := u_persisted u; u_last := u_last u; u_lasttx := u_lasttx u; u_pending := u_pending u;
      u_batch := u_batch u;
-     u_iks := if N.eqb (rq_ik rq) 0 then u_iks u else remove_N (rq_ik rq) (u_iks u);
-     u_refs := if N.eqb (rq_ref rq) 0 then u_refs u else remove_N (rq_ref rq) (u_refs u);
-     u_revs := match rq_kind rq with KRevert => remove_nat (rq_revert rq) (u_revs u) | _ => u_revs u end;
+     u_iks := if rel_ik && negb (N.eqb (rq_ik rq) 0) then remove_N (rq_ik rq) (u_iks u) else u_iks u;
+     u_refs := if rel_ref && negb (N.eqb (rq_ref rq) 0) then remove_N (rq_ref rq) (u_refs u) else u_refs u;
+     u_revs := if rel_rev then match rq_kind rq with KRevert => remove_nat (rq_revert rq) (u_revs u) | _ => u_revs u end
+               else u_revs u;
      u_locks := u_locks u; u_queue := u_queue u; u_cs := u_cs u; u_uid := u_uid u;
      u_threads := set_thread (u_threads u) t th';
      u_published := if publish then u_published u ++ [ev] else u_published u |}.
 
-(* finishing before a reservation was taken must not release somebody else's: [finish_keep] releases nothing *)
-Definition finish_keep (t : tid) (th : thread) (r : response) (keep_ik keep_ref keep_rev : bool) (u : upd) : upd :=
-  let u' := finish t th r false u in
-  {| u_persisted := u_persisted u'; u_last := u_last u'; u_lasttx := u_lasttx u'; u_pending := u_pending u';
-     u_batch := u_batch u';
-     u_iks := if keep_ik then u_iks u else u_iks u';
-     u_refs := if keep_ref then u_refs u else u_refs u';
-     u_revs := if keep_rev then u_revs u else u_revs u';
-     u_locks := u_locks u'; u_queue := u_queue u'; u_cs := u_cs u'; u_uid := u_uid u';
-     u_threads := u_threads u'; u_published := u_published u' |}.
+(* run's deferred release of the idempotency key happens before the completions (account unlock, reference) *)
+Definition release_ik (rq : request) (u : upd) : upd :=
+  {| u_persisted := u_persisted u; u_last := u_last u; u_lasttx := u_lasttx u; u_pending := u_pending u;
+     u_batch := u_batch u;
+     u_iks := if N.eqb (rq_ik rq) 0 then u_iks u else remove_N (rq_ik rq) (u_iks u);
+     u_refs := u_refs u; u_revs := u_revs u; u_locks := u_locks u; u_queue := u_queue u; u_cs := u_cs u;
+     u_uid := u_uid u; u_threads := u_threads u; u_published := u_published u |}.
 
 Definition set_th (t : tid) (th : thread) (u : upd) : upd :=
   {| u_persisted := u_persisted u; u_last := u_last u; u_lasttx := u_lasttx u; u_pending := u_pending u;
@@ -250,7 +250,7 @@ Definition enter_exec (t : tid) (th : thread) (u : upd) : upd :=
     match rq_target_tx rq with
     | Some id =>
         match find_tx (u_persisted u) id with
-        | None => finish t th (RErr ENotFound) false u
+        | None => finish t th (RErr ENotFound) false true false false u
         | Some _ => set_th t (with_pc th (if rq_dry rq then PWait else PAppendEnter)) u
         end
     | None => set_th t (with_pc th (if rq_dry rq then PWait else PAppendEnter)) u
@@ -283,7 +283,8 @@ Definition build_entry (t : tid) (th : thread) (u : upd) : entry :=
      e_ref := if is_tx_kind (rq_kind rq) then rq_ref rq else 0%N;
      e_ik := rq_ik rq;
      e_reverts := match rq_kind rq with KRevert => Some (rq_revert rq) | _ => None end;
-     e_owner := t |}.
+     e_owner := t;
+     e_unb := t_unb th |}.
 
 Definition entry_persisted (log : list entry) (e : entry) : bool := existsb (fun x => Nat.eqb (e_uid x) (e_uid e)) log.
 
@@ -298,32 +299,32 @@ Definition resume (s : state) (t : tid) : option state :=
       let ok (u' : upd) := Some (to_state (gen s) u') in
       match t_pc th with
       | PStart | PFinished => None
-      | PRevBusy => ok (finish_keep t th (RErr ERevertOccurring) true true true u)
+      | PRevBusy => ok (finish t th (RErr ERevertOccurring) false false false false u)
       | PRevTaken =>
           let found := find_tx (persisted s) (rq_revert rq) in
           ok (set_th t (with_pc th (PRevRead (match found with Some _ => true | None => false end)
                                              (is_reverted (persisted s) (rq_revert rq)))) u)
       | PRevRead found reverted =>
-          if negb found then ok (finish_keep t th (RErr ENotFound) true true false u)
-          else if reverted then ok (finish_keep t th (RErr EAlreadyReverted) true true false u)
+          if negb found then ok (finish t th (RErr ENotFound) false false false true u)
+          else if reverted then ok (finish t th (RErr EAlreadyReverted) false false false true u)
           else
             let ps := match find_tx (persisted s) (rq_revert rq) with Some e => swap_rev (e_postings e) | None => [] end in
             let th' := {| t_req := rq; t_pc := t_pc th; t_postings := ps; t_unb := rq_unb rq; t_view := t_view th;
                           t_entry := t_entry th; t_txid := t_txid th; t_granted := false; t_resp := None; t_gen := t_gen th |} in
             ok (enter_run t th' u)
-      | PIkBusy => ok (finish_keep t th (RErr EIkBusy) true true false u)
+      | PIkBusy => ok (finish t th (RErr EIkBusy) false false false true u)
       | PIkTaken => ok (set_th t (with_pc th (PIkLookup (find_by_ik (persisted s) (rq_ik rq)))) u)
       | PIkLookup (Some e) =>
           (* replay: the stored outcome is answered again (and published again when not a dry run) *)
           if match e_kind e, rq_kind rq with
              | KCreate, KCreate | KRevert, KRevert | KSaveMeta, KSaveMeta | KDelMeta, KDelMeta => true
              | _, _ => false end
-          then ok (finish t th (ROk (e_txid e)) (negb (rq_dry rq)) u)
-          else ok (finish t th (RErr EKindMismatch) false u)
+          then ok (finish t th (ROk (e_txid e)) (negb (rq_dry rq)) true false true u)
+          else ok (finish t th (RErr EKindMismatch) false true false true u)
       | PIkLookup None => ok (enter_exec t th u)
-      | PRefBusy => ok (finish_keep t th (RErr EConflict) false true false u)
+      | PRefBusy => ok (finish t th (RErr EConflict) false true false true u)
       | PRefTaken => ok (set_th t (with_pc th (PRefLookup (has_ref (persisted s) (rq_ref rq)))) u)
-      | PRefLookup true => ok (finish t th (RErr EConflict) false u)
+      | PRefLookup true => ok (finish t th (RErr EConflict) false true true true u)
       | PRefLookup false => ok (set_th t (with_pc th PResolved) u)
       | PResolved =>
           let rs := reads_of (t_postings th) in
@@ -350,10 +351,10 @@ Definition resume (s : state) (t : tid) : option state :=
           ok (set_th t th' u)
       | PBalances =>
           ok (set_th t (with_pc th (PRan (covers (t_view th) (t_unb th) (t_postings th)))) u)
-      | PRan false => ok (unlock t (set_th t (with_pc th PUnlocked) u))
+      | PRan false => ok (unlock t (release_ik rq (set_th t (with_pc th PUnlocked) u)))
       | PRan true =>
           match t_postings th with
-          | [] => ok (unlock t (set_th t (with_pc th PUnlocked) u))
+          | [] => ok (unlock t (release_ik rq (set_th t (with_pc th PUnlocked) u)))
           | _ =>
               if rq_dry rq then
                 let th' := {| t_req := rq; t_pc := PTxid; t_postings := t_postings th; t_unb := t_unb th; t_view := t_view th;
@@ -424,18 +425,18 @@ Definition resume (s : state) (t : tid) : option state :=
                | None => None
                end
       | PDone =>
-          if is_tx_kind (rq_kind rq) then ok (unlock t (set_th t (with_pc th PUnlocked) u))
-          else ok (finish t th (ROk None) (negb (rq_dry rq)) u)
+          if is_tx_kind (rq_kind rq) then ok (unlock t (release_ik rq (set_th t (with_pc th PUnlocked) u)))
+          else ok (finish t th (ROk None) (negb (rq_dry rq)) true false false u)
       | PUnlocked =>
           match t_pc th, t_txid th with
           | _, _ =>
               (* which way did we get here: a refused script, or a completed write / preview *)
               if covers (t_view th) (t_unb th) (t_postings th) then
                 match t_postings th with
-                | [] => ok (finish t th (RErr ENoPostings) false u)
-                | _ => ok (finish t th (ROk (t_txid th)) (negb (rq_dry rq)) u)
+                | [] => ok (finish t th (RErr ENoPostings) false false true true u)
+                | _ => ok (finish t th (ROk (t_txid th)) (negb (rq_dry rq)) false true true u)
                 end
-              else ok (finish t th (RErr EInsufficient) false u)
+              else ok (finish t th (RErr EInsufficient) false false true true u)
           end
       end
   end.
